@@ -520,7 +520,17 @@ pub fn t_impl(a: &[i64]) -> Val {
 }
 
 // t_impl6: `type T { a: u32 }` with one address-bound impl function of up to 6 parameters (C05: parameter order and types for longer lists).
-// a = [ps, address, recv, nargs, t0..t5 (arg_type codes), ret(0 none, k+1)]
+// a = [ps, address, recv, nargs, t0..t5 (arg_type codes), ret(0 none, k+1), name_kind]
+//   name_kind: 0 parameters a0..a5; 1 the first is named `this`; 2 the first is named `f`; 3 the last is named `f`
+//   (`this` and `f` are identifiers the emitted wrapper uses itself)
+fn arg_name(kind: i64, j: usize, n: usize) -> &'static str {
+    match kind {
+        1 if j == 0 => "this",
+        2 if j == 0 => "f",
+        3 if j + 1 == n => "f",
+        _ => ARG_NAMES[j],
+    }
+}
 pub fn t_impl6(a: &[i64]) -> Val {
     let ps = a[0] as usize;
     let mut args: Vec<Ar> = vec![];
@@ -532,7 +542,7 @@ pub fn t_impl6(a: &[i64]) -> Val {
     let nargs = a[3] as usize;
     let mut j = 0;
     while j < nargs && j < 6 {
-        args.push(Ar::named(ARG_NAMES[j], arg_type(a[4 + j])));
+        args.push(Ar::named(arg_name(a[11], j, if nargs < 6 { nargs } else { 6 }), arg_type(a[4 + j])));
         j += 1;
     }
     let mut f = F::new((V::Public, "g0"), args).with_attributes([A::integer_fn("address", a[1] as isize)]);
@@ -589,6 +599,29 @@ pub fn t_privbase(a: &[i64]) -> Val {
             ),
             FB::new("B", [F::new((V::Public, "kb"), [Ar::MutSelf]).with_attributes([A::integer_fn("address", 512)])]),
         ]);
+    build_one(ps, &m)
+}
+
+// t_vftargs: `type T { vftable { [#[index(idx)]] pub fn v(recv, 0..4 parameters) -> u32; }, x: *const u8 }` (C04: the wrapper passes the
+// receiver and then the declared arguments, whatever they are called).
+// a = [ps, recv (1 &self, 2 &mut self), nargs, t0..t3 (arg_type codes), name_kind (see t_impl6), has_index, index]
+pub fn t_vftargs(a: &[i64]) -> Val {
+    let ps = a[0] as usize;
+    let mut args: Vec<Ar> = vec![if a[1] == 2 { Ar::MutSelf } else { Ar::ConstSelf }];
+    let nargs = a[2] as usize;
+    let mut j = 0;
+    while j < nargs && j < 4 {
+        args.push(Ar::named(arg_name(a[7], j, if nargs < 4 { nargs } else { 4 }), arg_type(a[3 + j])));
+        j += 1;
+    }
+    let mut f = F::new((V::Public, "v"), args).with_return_type(T::ident("u32"));
+    if a[8] != 0 {
+        f = f.with_attributes([A::integer_fn("index", a[9] as isize)]);
+    }
+    let m = M::new().with_definitions([ID::new(
+        (V::Public, "T"),
+        TD::new([TS::vftable([f]), TS::field((V::Public, "x"), T::ident("u8").const_pointer())]),
+    )]);
     build_one(ps, &m)
 }
 
@@ -1168,8 +1201,9 @@ pub fn t_order_scope(a: &[i64]) -> Val {
 // t_order_vft: generated vftable types referenced from signatures, built twice (C09).
 //   A { vftable { f(&self) }, x }   B { y }  impl B { #[address(16)] fn g(&self, p: ARG) }
 //   C { vftable { h(&self, q: ARG2) }, z }   extern ev: ARG3 at 32
-// a = [ps, arg, arg2, arg3, b_field]   kinds: 0 u32, 1 *const A, 2 *const AVftable, 3 *const CVftable, 4 *const BVftable (never exists)
+// a = [ps, arg, arg2, arg3, b_field, n_avft]   kinds: 0 u32, 1 *const A, 2 *const AVftable, 3 *const CVftable, 4 *const BVftable (never exists)
 //   b_field: B additionally has a field of that kind (fields are retried, signatures are not)
+//   n_avft: an imported module `n` declares its own `AVftable` (two pointers), so the name AVftable has two providers once m's is generated
 fn order_arg(k: i64) -> T {
     match k {
         0 => T::ident("u32"),
@@ -1207,6 +1241,24 @@ pub fn t_order_vft(a: &[i64]) -> Val {
                 .with_attributes([A::integer_fn("address", 16)])],
         )])
         .with_extern_values([EV::new(V::Public, "ev", order_arg(a[3]), [A::integer_fn("address", 32)])]);
+    if a.len() > 5 && a[5] != 0 {
+        let m = m.with_uses([IP::from("n")]);
+        let n = M::new().with_definitions([ID::new(
+            (V::Public, "AVftable"),
+            TD::new([TS::field((V::Public, "n0"), p8()), TS::field((V::Public, "n1"), p8())]),
+        )]);
+        let both = || -> Val {
+            let mut st = SemanticState::new(ps);
+            if let Err(e) = st.add_module(&m, &IP::from("m")) {
+                return outcome(Err(e));
+            }
+            if let Err(e) = st.add_module(&n, &IP::from("n")) {
+                return outcome(Err(e));
+            }
+            outcome(st.build())
+        };
+        return Val::L(vec![both(), both()]);
+    }
     Val::L(vec![build_one(ps, &m), build_one(ps, &m)])
 }
 
@@ -1458,6 +1510,7 @@ pub const TEMPLATES: &[(&str, Template)] = &[
     ("t_enum", t_enum),
     ("t_impl", t_impl),
     ("t_implname", t_implname),
+    ("t_vftargs", t_vftargs),
     ("t_privbase", t_privbase),
     ("t_impl6", t_impl6),
     ("t_vft", t_vft),
